@@ -75,15 +75,47 @@ class JeaiiiWriter(Kernel):
         for pi, p in enumerate(paths):
             buf = p.mem[("G", "buf")].elems
             k = p.ret
-            bad = self._neg_property(n, k.t, buf, W)
-            res.queries.append(Query("%s/path%d" % (self.kid, pi), "property",
-                                     "canonical decimal numeral on path %d" % pi,
-                                     p.defs + pre + p.pc + [bad], ["n"], timeout_s=120, extra=p.apc))
+            kc = conc(k.t)
+            split = None
+            for (dx, dy, dq, dr) in p.divs:
+                if dx.eq(n) and conc(dy) == 10 ** 10 and kc is not None and kc > 10:
+                    split = (dq, dr)
+                    break
+            if split is None:
+                bad = self._neg_property(n, k.t, buf, W)
+                res.queries.append(Query("%s/path%d" % (self.kid, pi), "property",
+                                         "canonical decimal numeral on path %d" % pi,
+                                         p.defs + pre + p.pc + [bad], ["n"], timeout_s=120, extra=p.apc))
+            else:
+                # n = q * 10^10 + r (division lemma of the code's own `/` and `%`): decide the head
+                # digits against q, the last ten digits against r, then the whole numeral from both.
+                q, r = split
+                h = kc - 10
+                WW = W + 8
+
+                def val(ds):
+                    v = z3.BitVecVal(0, WW)
+                    for d in ds:
+                        v = v * 10 + (z3.ZeroExt(WW - 8, d.t) - 0x30)
+                    return v
+
+                def isdig(ds):
+                    return z3.And([z3.And(z3.UGE(d.t, 0x30), z3.ULE(d.t, 0x39)) for d in ds])
+                A = z3.And(isdig(buf[:h]), val(buf[:h]) == z3.ZeroExt(WW - bits, q), buf[0].t != 0x30)
+                B = z3.And(isdig(buf[h:kc]), val(buf[h:kc]) == z3.ZeroExt(WW - bits, r))
+                Pfull = z3.Not(self._neg_property(n, k.t, buf, W))
+                base = p.defs + pre + p.pc
+                res.queries.append(Query("%s/path%d/head" % (self.kid, pi), "property", "head digits denote n / 10^10 on path %d" % pi,
+                                         base + [z3.Not(A)], ["n"], timeout_s=120, extra=p.apc))
+                res.queries.append(Query("%s/path%d/tail" % (self.kid, pi), "property", "last ten digits denote n %% 10^10 on path %d" % pi,
+                                         base + [z3.Not(B)], ["n"], timeout_s=120, extra=p.apc))
+                res.queries.append(Query("%s/path%d/compose" % (self.kid, pi), "property", "head and tail lemmas imply the canonical numeral on path %d" % pi,
+                                         base + [A, B, z3.Not(Pfull)], ["n"], timeout_s=120, extra=p.apc))
             # vacuity witness: the path is reachable
-            q = Query("%s/path%d/reach" % (self.kid, pi), "witness", "path %d reachable" % pi,
-                      p.defs + pre + p.pc + p.apc, ["n"], strategies=("z3-new", "cvc5"), timeout_s=30)
-            q.expect = "sat"
-            res.queries.append(q)
+            q_ = Query("%s/path%d/reach" % (self.kid, pi), "witness", "path %d reachable" % pi,
+                       p.defs + pre + p.pc + p.apc, ["n"], strategies=("z3-new", "cvc5"), timeout_s=30)
+            q_.expect = "sat"
+            res.queries.append(q_)
         res.exec_s = time.time() - t0
         res.notes.append("forks=%d obligations=%d" % (ex.nforks, len(ex.obligations)))
         return res
@@ -680,6 +712,11 @@ class Dragonbox(ScalarKernel):
         self.negpost = self._negpost
         self.cases_fn = self._cases
         self.nbits = bits
+        if shorter:
+            # the binade's single power-of-two input: a constant, so MIR execution and the oracle
+            # both fold to constants (exhaustive over the 254 / 2046 such inputs when swept)
+            self.concrete = {"bits": E << p}
+            self.pre = None
 
     def _mrange(self):
         p = FLOAT_PARAMS[self.f]["p"]
@@ -880,3 +917,31 @@ register(ScalarKernel("rtz_f64", "tm::tm__f64__DragonboxFloat__remove_trailing_z
                       pre=lambda vs: [vs["m"] != 0, z3.ULT(vs["m"], z3.BitVecVal(2 ** 24, 64))], negpost=_rtz_negpost(19),
                       cases=_rtz_cases(2 ** 24 - 1), violates=lambda a, o: False, unwind=12, feas_ms=100, timeout_s=120,
                       funcs=["<f64 as DragonboxFloat>::remove_trailing_zeros"]))
+
+
+# ------------------------------------------------------------------ lemire() wrapper (truncated digits second pass)
+def _lemire_wrap_cases(lo, hi):
+    def f(seed):
+        rnd = random.Random(seed + 3)
+        cs = []
+        for q in (lo, -27, 0, 5, 27, 55, hi):
+            for w in (1, 9007199254740993, 0xFFFFFFFFFFFFFFFF, 1 << 63, 9007199254740993000):
+                for md in (0, 1):
+                    for ly in (0, 1):
+                        if md and not (10 ** 18 <= w < 10 ** 19):
+                            continue
+                        cs.append([w, q, md, ly])
+        return cs[:40]
+    return f
+
+
+for _f, _lo, _hi in (("f64", -342, 308), ("f32", -65, 38)):
+    register(ScalarKernel(
+        "lemire_wrap_" + _f, "lemire_" + _f, [("mantissa", "u64"), ("exponent", "i64"), ("many_digits", "bool"), ("lossy", "bool")],
+        "lemire::lemire::<%s>(num, lossy): with lossy the result is never the error marker (exp >= 0); without truncated digits it equals compute_float; no panic" % _f,
+        # contract of parse_number: a truncated mantissa holds exactly 19 significant decimal digits
+        pre=lambda vs: [z3.Implies(vs["many_digits"], z3.And(z3.UGE(vs["mantissa"], z3.BitVecVal(10 ** 18, 64)), z3.ULT(vs["mantissa"], z3.BitVecVal(10 ** 19, 64))))],
+        negpost=lambda vs, ret: z3.And(vs["lossy"], ret.fields[1].t < 0),
+        cases=_lemire_wrap_cases(_lo, _hi),
+        violates=lambda args, out: int(out.split()[1]) < 0 and args[3] != 0,
+        funcs=["lexical_parse_float::lemire::lemire::<%s>" % _f], timeout_s=120, feas_ms=40))
